@@ -4,5 +4,6 @@ pub mod drive;
 pub mod evidence;
 pub mod model;
 pub mod ops;
+pub mod parse;
 pub mod rng;
 pub mod runner;
